@@ -55,7 +55,8 @@ class MultiFunction:
         # (cached for each algorithm for performance)
         algorithm_class = type(self)
         cache_data = MultiFunction._handlers_cache.get(algorithm_class)
-        if not cache_data:
+        # Rebuild if Expr types have been registered since the table was cached
+        if not cache_data or len(cache_data[0]) != len(Expr._ufl_all_classes_):
             handler_names = [None] * len(Expr._ufl_all_classes_)
 
             # Iterate over the inheritance chain for each Expr
